@@ -179,6 +179,16 @@ pub fn analyse_raw(ts: &TaskSet, variant: Variant, i: usize, repr: u8) -> Search
                     let others = vec![demand::Aggregate::new(owned)];
                     run_fp!(others)
                 }
+                4 => {
+                    // an aggregate of aggregates (the second one possibly empty)
+                    let mut owned: Vec<DynRbf> = hep.iter().map(|j| rbf_of(ts, *j)).collect();
+                    let tail = owned.split_off(owned.len() / 2);
+                    let others = vec![demand::Aggregate::new(vec![
+                        demand::Aggregate::new(owned),
+                        demand::Aggregate::new(tail),
+                    ])];
+                    run_fp!(others)
+                }
                 _ => {
                     let others: Vec<DynRbf> = hep.iter().map(|j| rbf_of(ts, *j)).collect();
                     run_fp!(others)
@@ -301,6 +311,16 @@ pub fn analyse_raw(ts: &TaskSet, variant: Variant, i: usize, repr: u8) -> Search
                     let agg = demand::Aggregate::new(rcs);
                     let dynr: &dyn RequestBound = &agg;
                     fifo::dedicated_uniproc_rta(dynr, limit)
+                }
+                3 | 4 => {
+                    // nested: an aggregate of (a slice-backed box, an aggregate)
+                    let mut owned = owned;
+                    let tail = owned.split_off(owned.len() / 2);
+                    let parts: Vec<Box<dyn RequestBound>> = vec![
+                        Box::new(demand::Aggregate::new(owned)),
+                        Box::new(demand::Aggregate::new(tail)),
+                    ];
+                    fifo::dedicated_uniproc_rta(&demand::Aggregate::new(parts), limit)
                 }
                 _ => fifo::dedicated_uniproc_rta(&demand::Aggregate::new(owned), limit),
             }
